@@ -216,7 +216,10 @@ class LQRHist(Sub):
                        st.tuples(st.just("systime"), st.integers(0, 30), st.booleans()),
                        st.tuples(st.just("reset"), st.integers(0, 5), st.booleans()),
                        st.tuples(st.just("again"), st.integers(0, 10 ** 6), st.booleans()),
-                       st.tuples(st.just("solveT"), st.integers(0, 10 ** 6), st.booleans()))
+                       st.tuples(st.just("solveT"), st.integers(0, 10 ** 6), st.booleans()),
+                       # the history continues on a copy.deepcopy of the system (flag: and of the live LQR module) - nn.Module
+                       # semantics: an independent module with the same state (a clock captured in a hook closure would stay behind)
+                       st.tuples(st.just("copy"), st.integers(0, 1), st.booleans()))
         return st.fixed_dictionaries({
             "seed": st.integers(0, 10 ** 7), "nb": st.integers(1, 3), "ns": st.integers(1, 6), "nc": st.integers(1, 6), "T": Ts,
             "ltv": st.booleans(), "tvq": st.booleans(), "cross": st.booleans(), "condq": st.sampled_from((1.0, 1e2, 1e4, 1e6)), "c1": st.booleans(),
@@ -243,6 +246,17 @@ class LQRHist(Sub):
                 sysm.systime = arg % T if ltv else arg
             elif kind == "reset":
                 sysm.reset(arg % T if ltv else arg)
+            elif kind == "copy":
+                import copy as _copy
+                with rec.sut("copy.deepcopy"):
+                    if flag and lqr is not None:
+                        lqr = _copy.deepcopy(lqr)            # the module owns its system: continue with the copy's system
+                        sysm = lqr.system
+                        rec.label("deepcopied:LQR_module")
+                    else:
+                        sysm = _copy.deepcopy(sysm)
+                        lqr = None                           # an LQR built on the old object is not reused
+                        rec.label("deepcopied:system")
             else:
                 rs = np.random.RandomState(arg)
                 if kind == "again" and lqr is not None:
